@@ -42,7 +42,7 @@ pub mod c16_batcher {
     }
 
     /// canonical tag of a panic message (`panic:<first line>` as produced by `guarded`)
-    fn tag(msg: &str) -> String {
+    pub(super) fn tag(msg: &str) -> String {
         if msg.contains("already been validated") {
             format!("panic:validated:{}", digits_after(msg, "access batch "))
         } else if msg.contains("validate_record called twice") {
@@ -80,7 +80,7 @@ pub mod c16_batcher {
         }
     }
 
-    fn err_tag(e: &Error) -> String {
+    pub(super) fn err_tag(e: &Error) -> String {
         match e {
             Error::MissingTotalRecords(_) => "err:MissingTotal".into(),
             Error::RecordIdOutOfRange { .. } => "err:OutOfRange".into(),
@@ -235,7 +235,7 @@ pub mod c16_batcher {
         out.join(" ")
     }
 
-    fn permutations(n: usize) -> Vec<Vec<usize>> {
+    pub(super) fn permutations(n: usize) -> Vec<Vec<usize>> {
         fn go(k: usize, cur: &mut Vec<usize>, out: &mut Vec<Vec<usize>>) {
             if k == cur.len() {
                 out.push(cur.clone());
@@ -934,6 +934,560 @@ pub mod c04_pure {
                 "Fp32BitPrime" => exec_f::<Fp32BitPrime>(&a32, &t),
                 "Fp25519x16" => vector16(&a25, &t),
                 f => panic!("harness: unknown field {f}"),
+            }
+        });
+    }
+}
+
+
+// ------------------------------------------------------------------------------------------
+// C16 — the validator WRAPPERS around the batcher (agent b10): the real `MaliciousDZKPValidator`
+// (+ `DZKPUpgraded::validate_record`) and the real MAC `BatchValidator` (+ `Upgraded::validate_record`)
+// under malicious `TestWorld` contexts.
+//
+// Request:  c16.val <dzkp|mac> <context total|-|inf> <records per batch | active work> <op>…
+//   t<n>|ti|tu  DZKPValidator::set_total_records      v<r>  ctx.validate_record(r): created, polled once
+//   p<i>  poll future i again (MAC: on all three helpers until it completes or nothing moves any more)
+//   d<i>  drop future i      s | s<k>  validate() | validate_indexed(k)      e  is_verified
+// Response: one token per op, then `| drop=<outcome of dropping the validator>`.
+// A future index is allocated by every `v` whose first poll did not panic.
+pub mod c16_validators {
+    use std::{
+        future::Future,
+        pin::Pin,
+        task::{Context as TaskCtx, Poll},
+    };
+
+    use super::c16_batcher::{err_tag, permutations, tag};
+    use crate::{
+        error::Error,
+        ff::Fp31,
+        helpers::TotalRecords,
+        ipa_verif::proto::*,
+        protocol::{
+            RecordId,
+            context::{
+                Context, DZKPContext, MaliciousContext, TEST_DZKP_STEPS, UpgradableContext, UpgradedContext,
+                Validator, dzkp_validator::DZKPValidator,
+            },
+        },
+        sharding::NotSharded,
+        test_fixture::TestWorld,
+        utils::NonZeroU32PowerOfTwo,
+    };
+
+    type Fut<'a> = Pin<Box<dyn Future<Output = Result<(), Error>> + Send + 'a>>;
+
+    /// rounds of "poll on every helper, then let every other task of the runtime run" after which a
+    /// still pending MAC future counts as waiting (single-threaded runtime: no wall clock involved;
+    /// an honest MAC check needs about 20 rounds).
+    const SETTLE_ROUNDS: usize = 400;
+
+    fn wtag(msg: &str) -> String {
+        if msg.contains("PoisonError") {
+            "panic:poisoned".into()
+        } else if msg.contains("validator should be active")
+            || msg.contains("alidator is active")
+            || msg.contains("Validation batch is active")
+            || msg.contains("nothing else should be consuming")
+        {
+            "panic:inactive".into()
+        } else if msg.contains("only strong reference") {
+            "panic:strong-ref".into()
+        } else if msg.contains("Total records must be specified") {
+            "panic:total-required".into()
+        } else if msg.contains("ConvertError") {
+            "panic:not-pow2".into()
+        } else if msg.contains("ContextUnsafe") {
+            "panic:context-unsafe".into()
+        } else if msg.contains("`Option::unwrap()` on a `None` value") {
+            "panic:zero-batch".into()
+        } else {
+            tag(msg)
+        }
+    }
+
+    fn parse_total(s: &str) -> Option<TotalRecords> {
+        match s {
+            "-" => None,
+            "inf" => Some(TotalRecords::Indeterminate),
+            n => Some(TotalRecords::specified(n.parse().unwrap()).unwrap()),
+        }
+    }
+
+    fn op_total(arg: &str) -> TotalRecords {
+        match arg {
+            "i" => TotalRecords::Indeterminate,
+            "u" => TotalRecords::Unspecified,
+            n => TotalRecords::specified(n.parse().unwrap()).unwrap(),
+        }
+    }
+
+    fn poll_once(f: &mut Fut<'_>) -> Result<Poll<Result<(), Error>>, String> {
+        let mut cx = TaskCtx::from_waker(futures::task::noop_waker_ref());
+        guarded(|| f.as_mut().poll(&mut cx))
+    }
+
+    fn res_tag(r: &Result<(), Error>) -> String {
+        match r {
+            Ok(()) => "ok".into(),
+            Err(e) => err_tag(e),
+        }
+    }
+
+    fn exec_dzkp(base: MaliciousContext<'_, NotSharded>, total: &str, rpb: usize, ops: &[&str]) -> String {
+        let base = match parse_total(total) {
+            None => base,
+            Some(t) => base.set_total_records(t),
+        };
+        let mut validator = match guarded(|| base.dzkp_validator(TEST_DZKP_STEPS, rpb)) {
+            Ok(v) => Some(v),
+            Err(p) => return wtag(&p),
+        };
+        let ctx = validator.as_ref().unwrap().context();
+        let mut futs: Vec<Option<Fut<'_>>> = vec![];
+        let mut out: Vec<String> = vec![];
+        for op in ops {
+            let (c, arg) = op.split_at(1);
+            let num = || arg.parse::<usize>().unwrap();
+            let resp: String = match c {
+                "t" => match validator.as_mut() {
+                    None => "moved".into(),
+                    Some(v) => match guarded(|| v.set_total_records(op_total(arg))) {
+                        Ok(()) => "t".into(),
+                        Err(p) => wtag(&p),
+                    },
+                },
+                "v" => {
+                    let mut f: Fut<'_> = ctx.validate_record(RecordId::from(num()));
+                    match poll_once(&mut f) {
+                        Ok(Poll::Pending) => {
+                            futs.push(Some(f));
+                            "pend".into()
+                        }
+                        Ok(Poll::Ready(r)) => {
+                            futs.push(None);
+                            res_tag(&r)
+                        }
+                        Err(p) => wtag(&p),
+                    }
+                }
+                "p" => {
+                    let i = num();
+                    match futs.get_mut(i).and_then(|f| f.as_mut()) {
+                        None => "gone".into(),
+                        Some(f) => match poll_once(f) {
+                            Ok(Poll::Pending) => "pend".into(),
+                            Ok(Poll::Ready(r)) => {
+                                futs[i] = None;
+                                res_tag(&r)
+                            }
+                            Err(p) => {
+                                futs[i] = None;
+                                wtag(&p)
+                            }
+                        },
+                    }
+                }
+                "d" => {
+                    if let Some(f) = futs.get_mut(num()) {
+                        *f = None;
+                    }
+                    "d".into()
+                }
+                "s" => match validator.take() {
+                    None => "moved".into(),
+                    Some(v) => {
+                        let mut f: Fut<'_> = if arg.is_empty() { v.validate() } else { v.validate_indexed(num()) };
+                        match poll_once(&mut f) {
+                            Ok(Poll::Pending) => "s:pend".into(),
+                            Ok(Poll::Ready(Ok(()))) => "s:ok".into(),
+                            Ok(Poll::Ready(Err(e))) => err_tag(&e),
+                            Err(p) => wtag(&p),
+                        }
+                    }
+                },
+                "e" => match validator.as_ref() {
+                    None => "moved".into(),
+                    Some(v) => match guarded(|| v.is_verified()) {
+                        Ok(Ok(())) => "e1".into(),
+                        Ok(Err(Error::ContextUnsafe(_))) => "e0".into(),
+                        Ok(Err(e)) => err_tag(&e),
+                        Err(p) => wtag(&p),
+                    },
+                },
+                _ => panic!("harness: unknown op {op}"),
+            };
+            out.push(resp);
+        }
+        drop(futs);
+        let dropped = match validator.take() {
+            None => "ok".to_string(),
+            Some(v) => match guarded(move || drop(v)) {
+                Ok(()) => "ok".into(),
+                Err(p) => wtag(&p),
+            },
+        };
+        out.push("|".into());
+        out.push(format!("drop={dropped}"));
+        out.join(" ")
+    }
+
+    fn agree(xs: &[String; 3]) -> String {
+        if xs[0] == xs[1] && xs[1] == xs[2] {
+            xs[0].clone()
+        } else {
+            format!("diverged:{}/{}/{}", xs[0], xs[1], xs[2])
+        }
+    }
+
+    async fn exec_mac(bases: [MaliciousContext<'_, NotSharded>; 3], total: &str, aw: usize, ops: &[&str]) -> String {
+        let aw = NonZeroU32PowerOfTwo::try_from(aw).expect("harness: active work must be a power of two");
+        let mut validators = vec![];
+        let mut refused: Vec<String> = vec![];
+        for base in bases {
+            let base = base.set_active_work(aw);
+            let base = match parse_total(total) {
+                None => base,
+                Some(t) => base.set_total_records(t),
+            };
+            match guarded(|| base.validator::<Fp31>()) {
+                Ok(v) => validators.push(v),
+                Err(p) => refused.push(wtag(&p)),
+            }
+        }
+        if !refused.is_empty() {
+            return if refused.len() == 3 && refused[0] == refused[1] && refused[1] == refused[2] {
+                refused[0].clone()
+            } else {
+                format!("diverged:{}", refused.join("/"))
+            };
+        }
+        let ctxs: Vec<_> = validators.iter().map(|v| v.context()).collect();
+        let mut futs: [Vec<Option<Fut<'_>>>; 3] = [vec![], vec![], vec![]];
+        let mut out: Vec<String> = vec![];
+        for op in ops {
+            let (c, arg) = op.split_at(1);
+            let num = || arg.parse::<usize>().unwrap();
+            let resp: String = match c {
+                "t" | "s" | "e" => "na".into(),
+                "v" => {
+                    let r = num();
+                    let mut rs: [String; 3] = Default::default();
+                    for h in 0..3 {
+                        let mut f: Fut<'_> = ctxs[h].validate_record(RecordId::from(r));
+                        rs[h] = match poll_once(&mut f) {
+                            Ok(Poll::Pending) => {
+                                futs[h].push(Some(f));
+                                "pend".into()
+                            }
+                            Ok(Poll::Ready(r)) => {
+                                futs[h].push(None);
+                                res_tag(&r)
+                            }
+                            Err(p) => wtag(&p),
+                        };
+                    }
+                    agree(&rs)
+                }
+                "p" => {
+                    let i = num();
+                    let mut rs: [Option<String>; 3] = Default::default();
+                    for h in 0..3 {
+                        if futs[h].get(i).map_or(true, Option::is_none) {
+                            rs[h] = Some("gone".into());
+                        }
+                    }
+                    for _ in 0..SETTLE_ROUNDS {
+                        for h in 0..3 {
+                            if rs[h].is_some() {
+                                continue;
+                            }
+                            let f = futs[h][i].as_mut().unwrap();
+                            match poll_once(f) {
+                                Ok(Poll::Pending) => {}
+                                Ok(Poll::Ready(r)) => {
+                                    futs[h][i] = None;
+                                    rs[h] = Some(res_tag(&r));
+                                }
+                                Err(p) => {
+                                    futs[h][i] = None;
+                                    rs[h] = Some(wtag(&p));
+                                }
+                            }
+                        }
+                        if rs.iter().all(Option::is_some) {
+                            break;
+                        }
+                        tokio::task::yield_now().await;
+                    }
+                    agree(&rs.map(|r| r.unwrap_or_else(|| "pend".into())))
+                }
+                "d" => {
+                    let i = num();
+                    for h in 0..3 {
+                        if let Some(f) = futs[h].get_mut(i) {
+                            *f = None;
+                        }
+                    }
+                    "d".into()
+                }
+                _ => panic!("harness: unknown op {op}"),
+            };
+            out.push(resp);
+        }
+        drop(futs);
+        drop(ctxs);
+        drop(validators);
+        out.push("|".into());
+        out.push("drop=ok".into());
+        out.join(" ")
+    }
+
+    fn script(kind: &str, total: &str, rpb: usize, ops: &[String]) -> String {
+        format!("c16.val {kind} {total} {rpb} {}", ops.join(" "))
+    }
+
+    /// `v` for every record of `order`; `poll_now`: re-poll everything after each arrival, otherwise
+    /// only at the end (twice).
+    fn arrivals(order: &[usize], poll_now: bool) -> Vec<String> {
+        let mut ops = vec![];
+        for (k, r) in order.iter().enumerate() {
+            ops.push(format!("v{r}"));
+            if poll_now {
+                for i in 0..=k {
+                    ops.push(format!("p{i}"));
+                }
+            }
+        }
+        for _ in 0..2 {
+            for i in 0..order.len() {
+                ops.push(format!("p{i}"));
+            }
+        }
+        ops
+    }
+
+    pub fn generate(rng: &mut Rng, thorough: bool) -> Vec<String> {
+        let mut out: Vec<String> = vec![];
+        // ---- boundary scripts first
+        for s in [
+            // the declared total differs from the one of the context (larger / smaller / equal)
+            "c16.val dzkp 6 4 t8 v4 v5 p0 p1 v6 v7 p0 p1 v0 v1 v2 v3 e",
+            "c16.val dzkp 8 4 t6 v4 v5 p0 p1 v0 v1 v2 v3 e",
+            "c16.val dzkp 6 4 t6 v4 v5 p0 v0 v1 v2 v3 p1 p2 p3 e",
+            "c16.val dzkp 6 4 v4 v5 p0 v0 v1 v2 v3 p1 p2 p3 e",
+            "c16.val dzkp 5 2 ti v0 tu t5 e",
+            "c16.val dzkp 5 2 tu v4 p0 v0 e",
+            // declared on the validator only / not at all / indeterminate context
+            "c16.val dzkp - 4 t6 v4 v5 p0 v0 v1 v2 v3 p1 p2 p3 e",
+            "c16.val dzkp - 4 v0 p0 t6 v0 v4 v5 p1 p2 e",
+            "c16.val dzkp - 4 tu v0 ti v0 t3 e",
+            "c16.val dzkp inf 2 v0 t4 v0 e",
+            "c16.val dzkp - 2 t4 t4 v0 e",
+            "c16.val dzkp - 2 t4 ti v0 p0 e",
+            // batch sizes that the wrapper refuses / leaves alone
+            "c16.val dzkp 6 0 v0",
+            "c16.val dzkp 6 3 v0",
+            "c16.val dzkp 6 6 v0",
+            "c16.val dzkp 6 4294967296 v0",
+            "c16.val dzkp 3 1 v2 v0 v1 p0 e",
+            "c16.val dzkp 3 18446744073709551615 v2 v0 p0 v1 p0 p1 e",
+            "c16.val dzkp 3 18446744073709551615 e s e",
+            // validate() / validate_indexed
+            "c16.val dzkp 4 2 s t4 e s",
+            "c16.val dzkp 4 2 s7 v0",
+            "c16.val dzkp - 2 s v0 p0",
+            "c16.val dzkp 4 2 v0 s v1 p0 p1 v2 e",
+            "c16.val dzkp 4 2 v0 d0 s v1",
+            "c16.val dzkp 4 2 v0 v1 e s",
+            "c16.val dzkp 4 2 v0 v1 v2 d2 e s",
+            "c16.val dzkp 4 2 v2 v3 e s",
+            "c16.val dzkp 4 2 v2 d0 e s v0",
+            // misuse: twice, beyond the total, already validated -> the mutex is poisoned afterwards
+            "c16.val dzkp 4 2 v0 v0 v1 p0 e t4 s",
+            "c16.val dzkp 4 2 v0 v1 v0 v2 e",
+            "c16.val dzkp 3 2 v3 v2 p0 v3 e",
+            "c16.val dzkp 3 2 v4 p0 v5 v2 p1 e",
+            "c16.val dzkp 4 2 v1 e v0 e",
+            // MAC validator: the total must be on the context, batch size = active work
+            "c16.val mac - 4 v0",
+            "c16.val mac inf 4 v0",
+            "c16.val mac 6 4 v4 v5 p0 p1 p0 v0 v1 v2 p2 v3 p2 p5 p3 p4",
+            "c16.val mac 6 4 v5 v4 p0 p1 v0 v1 v2 v3 p5 p2 p3 p4",
+            "c16.val mac 3 2 v0 v0 v1 p0",
+            "c16.val mac 3 2 v3 v2 p0 v4 p1 p2",
+            "c16.val mac 4 2 v0 v1 p1 p0 v1 v2",
+            "c16.val mac 4 2 v0 v1 d1 p0",
+            "c16.val mac 8 8 v7 v6 v5 v4 v3 v2 v1 p0 v0 p7 p0 p1 p2 p3 p4 p5 p6",
+        ] {
+            out.push(s.to_string());
+        }
+        // ---- context total a x declared total b x records per batch: the records of the last
+        // batch(es) arrive under the declared total
+        for rpb in 1..=4usize {
+            for a in [None, Some(1usize), Some(2), Some(3), Some(4), Some(5), Some(6), Some(7), Some(8)] {
+                let mut decls: Vec<String> = vec!["".into(), "ti".into(), "tu".into()];
+                for b in 1..=9usize {
+                    decls.push(format!("t{b}"));
+                }
+                for d in decls {
+                    let eff = match (a, d.as_str()) {
+                        (_, "ti") | (None, "" | "tu") => 4,
+                        (Some(a), "" | "tu") => a,
+                        (_, t) => t[1..].parse::<usize>().unwrap(),
+                    };
+                    let n = eff.max(a.unwrap_or(0));
+                    let asc: Vec<usize> = (0..n).collect();
+                    let desc: Vec<usize> = (0..n).rev().collect();
+                    let mut rnd = asc.clone();
+                    rng.shuffle(&mut rnd);
+                    for (k, order) in [asc, desc, rnd].iter().enumerate() {
+                        let mut ops: Vec<String> = vec![];
+                        if !d.is_empty() {
+                            ops.push(d.clone());
+                        }
+                        ops.extend(arrivals(order, k == 2));
+                        ops.push("e".into());
+                        out.push(script("dzkp", &a.map_or("-".to_string(), |a| a.to_string()), rpb, &ops));
+                    }
+                }
+            }
+        }
+        // ---- declaration after some records already asked (unspecified context)
+        for rpb in [1usize, 2, 4] {
+            for n in 1..=6usize {
+                for pos in 0..=n {
+                    let mut ops: Vec<String> = vec![];
+                    let mut order: Vec<usize> = (0..n).collect();
+                    rng.shuffle(&mut order);
+                    for (k, r) in order.iter().enumerate() {
+                        if k == pos {
+                            ops.push(format!("t{n}"));
+                        }
+                        ops.push(format!("v{r}"));
+                    }
+                    if pos == n {
+                        ops.push(format!("t{n}"));
+                    }
+                    for i in 0..n {
+                        ops.push(format!("p{i}"));
+                    }
+                    ops.push("e".into());
+                    out.push(script("dzkp", "-", rpb, &ops));
+                }
+            }
+        }
+        // ---- every arrival permutation (n <= 5; 6 thorough), total from the context or declared
+        let nmax = if thorough { 6 } else { 5 };
+        for n in 1..=nmax {
+            for (pi, order) in permutations(n).iter().enumerate() {
+                for rpb in [1usize, 2, 4] {
+                    let mut ops = arrivals(order, pi % 2 == 0);
+                    ops.push("e".into());
+                    if pi % 2 == 0 {
+                        out.push(script("dzkp", &n.to_string(), rpb, &ops));
+                    } else {
+                        ops.insert(0, format!("t{n}"));
+                        out.push(script("dzkp", "-", rpb, &ops));
+                    }
+                }
+            }
+        }
+        // ---- MAC: every arrival permutation n <= 4, larger totals in three orders
+        for n in 1..=4usize {
+            for (pi, order) in permutations(n).iter().enumerate() {
+                for aw in [2usize, 4] {
+                    out.push(script("mac", &n.to_string(), aw, &arrivals(order, pi % 2 == 1)));
+                }
+            }
+        }
+        for aw in [2usize, 4, 8] {
+            for n in [5usize, 6, 7, 8, 9, 12, 16, 17] {
+                let asc: Vec<usize> = (0..n).collect();
+                let desc: Vec<usize> = (0..n).rev().collect();
+                let mut rnd = asc.clone();
+                rng.shuffle(&mut rnd);
+                for (k, order) in [asc, desc, rnd].iter().enumerate() {
+                    if n > 9 && k == 2 && !thorough {
+                        continue;
+                    }
+                    out.push(script("mac", &n.to_string(), aw, &arrivals(order, k == 2 && n <= 9)));
+                }
+            }
+        }
+        // ---- random scripts with misuse mixed in
+        for k in 0..(if thorough { 3000 } else { 300 }) {
+            let mac = k % 4 == 3;
+            let rpb = if mac { *rng.pick(&[2usize, 4]) } else { *rng.pick(&[1usize, 2, 4, 8]) };
+            let total = 1 + rng.usize_below(12);
+            let from_ctx = mac || rng.bool();
+            let mut order: Vec<usize> = (0..total).collect();
+            rng.shuffle(&mut order);
+            if rng.below(3) == 0 {
+                order.truncate(rng.usize_below(total + 1));
+            }
+            let mut ops: Vec<String> = vec![];
+            if !from_ctx {
+                ops.push(format!("t{total}"));
+            }
+            let mut nf = 0usize;
+            for r in &order {
+                ops.push(format!("v{r}"));
+                nf += 1;
+                match rng.below(12) {
+                    0 => ops.push(format!("v{}", rng.usize_below(total + rpb + 2))),
+                    1 if !mac => ops.push(format!("t{}", 1 + rng.usize_below(12))),
+                    2 | 3 | 4 => ops.push(format!("p{}", rng.usize_below(nf + 1))),
+                    5 => ops.push(format!("d{}", rng.usize_below(nf + 1))),
+                    6 if !mac => ops.push("e".into()),
+                    7 if !mac && rng.below(4) == 0 => ops.push("s".into()),
+                    _ => {}
+                }
+            }
+            for _ in 0..2 {
+                for i in 0..nf + 2 {
+                    ops.push(format!("p{i}"));
+                }
+            }
+            if !mac {
+                ops.push("e".into());
+            }
+            out.push(script(
+                if mac { "mac" } else { "dzkp" },
+                &if from_ctx { total.to_string() } else { "-".to_string() },
+                rpb,
+                &ops,
+            ));
+        }
+        out
+    }
+
+    #[test]
+    fn verif_c16_validators() {
+        // one single-threaded runtime and one TestWorld for the whole suite; every request gets its own
+        // gate, so PRSS indices and channels of different requests never meet
+        let rt = tokio::runtime::Builder::new_current_thread().enable_all().build().unwrap();
+        let _guard = rt.enter();
+        let world = TestWorld::<NotSharded>::default();
+        let counter = std::cell::Cell::new(0usize);
+        // (`malicious_contexts` hands out at most 999 gates per world)
+        let roots = world.malicious_contexts();
+        run_suite("c16_validators", generate, |req| {
+            let t: Vec<&str> = req.split(' ').collect();
+            assert_eq!(t[0], "c16.val");
+            let k = counter.get();
+            counter.set(k + 1);
+            let step = format!("c16v{k}");
+            let bases = roots.clone().map(|c| c.narrow(&step));
+            let rpb: usize = t[3].parse().unwrap();
+            match t[1] {
+                "dzkp" => {
+                    let [h1, _, _] = bases;
+                    exec_dzkp(h1, t[2], rpb, &t[4..])
+                }
+                "mac" => rt.block_on(exec_mac(bases, t[2], rpb, &t[4..])),
+                k => panic!("harness: unknown validator kind {k}"),
             }
         });
     }
